@@ -102,6 +102,39 @@ RECURSIVE HasBBox(_)
 HasBBox(t) == CASE t.op = "bbox" -> TRUE [] t.op = "zoom" -> HasBBox(t.src)
                 [] t.op = "overlay" -> \E k \in 1..Len(t.srcs) : HasBBox(t.srcs[k]) [] OTHER -> FALSE
 
+(* RELATIONAL judgement of the ROOT operation of a tree that mixes overlays and filters: the root is compared with what its
+   direct children -- each built on its own and asked the same lookups and streams (r.kids) -- were OBSERVED to deliver.  This
+   is what C08 / C09 say of ONE operation ("the first listed source's tile", "exactly the source's tiles inside"), whatever the
+   sources are; it is how a failure of a mixed tree is attributed to the root operation and not to something below it. *)
+KidsOk(r) == "kids" \in DOMAIN r /\ Len(r.kids) > 0 /\ \A k \in 1..Len(r.kids) : r.kids[k].built = 1
+RootPass(t, c) ==       \* does a filter at the root let the coordinate pass?
+    CASE t.op = "zoom" -> (t.min < 0 \/ c[1] >= t.min) /\ (t.max < 0 \/ c[1] <= t.max)
+      [] t.op = "bbox" -> DContains(GeoSel(t.geo, c[1]), c[2], c[3])
+      [] OTHER -> TRUE
+\* the answer the root owes for one coordinate, given its children's answers (a sequence); -99 = nothing can be said
+RootOwes(t, c, answers) ==
+    IF \E k \in 1..Len(answers) : answers[k] < 0 THEN -99           \* a child failed / delivered unknown bytes: not the root's matter
+    ELSE IF t.op = "overlay"
+         THEN LET have == {k \in 1..Len(answers) : answers[k] > 0} IN
+              IF have = {} THEN 0 ELSE answers[CHOOSE k \in have : \A j \in have : k <= j]
+         ELSE IF RootPass(t, c) THEN answers[1] ELSE 0
+RelLookupOk(r) ==
+    \A i \in 1..Len(r.lookups) :
+        LET a == r.lookups[i]
+            owes == RootOwes(r.tree, <<a[1], a[2], a[3]>>, [k \in 1..Len(r.kids) |-> r.kids[k].lookups[i]])
+        IN owes = -99 \/ a[4] = owes
+RelStreamOk(r) ==
+    \A i \in 1..Len(r.streams) :
+        LET s == r.streams[i]
+            ks == [k \in 1..Len(r.kids) |-> r.kids[k].streams[i]]
+            coords == UNION { {CoordOf(ks[k].res[j]) : j \in 1..Len(ks[k].res)} : k \in 1..Len(ks) }
+            ans(k, c) == LET hit == {j \in 1..Len(ks[k].res) : CoordOf(ks[k].res[j]) = c} IN
+                         IF hit = {} THEN 0 ELSE ks[k].res[CHOOSE j \in hit : TRUE][4]
+            owed == { <<c[1], c[2], c[3], RootOwes(r.tree, c, [k \in 1..Len(ks) |-> ans(k, c)])>> : c \in coords }
+        IN \/ \E k \in 1..Len(ks) : ks[k].status # "ok" \/ \E j \in 1..Len(ks[k].res) : ks[k].res[j][4] < 0
+           \/ \E k \in 1..Len(ks) : Len(ks[k].res) # Cardinality({CoordOf(ks[k].res[j]) : j \in 1..Len(ks[k].res)})   \* a child delivers duplicates
+           \/ s.status = "ok" /\ SameBag(s.res, {x \in owed : x[4] > 0})
+
 (* judging one observed operation *)
 PipeFails1(r) ==
     LET S == r.sources  t == r.tree  want == Sem(t, S) IN
@@ -128,6 +161,8 @@ PipeFails1(r) ==
           Fails("stream_sem", \A i \in 1..Len(r.streams) :
                    LET s == r.streams[i] IN
                    s.status = "ok" /\ SameBag(s.res, {x \in want : InBox(x, s.box)})) \cup
+          Fails("rel_lookup", ~KidsOk(r) \/ RelLookupOk(r)) \cup
+          Fails("rel_stream", ~KidsOk(r) \/ RelStreamOk(r)) \cup
           Fails("stream", \A i \in 1..Len(r.streams) :
                    r.streams[i].status = "ok" /\ r.streams[i].res = TilesInBox(r.expect, r.streams[i].box)))
 \* judged with the guard's choice at exact tile boundaries; failing that, with any one uniform admissible choice
